@@ -13,6 +13,7 @@ import (
 	"context"
 	"io"
 	"iter"
+	"slices"
 
 	"github.com/synnaxlabs/x/change"
 	"github.com/synnaxlabs/x/encoding"
@@ -105,7 +106,11 @@ type IterOptions struct {
 
 // OpenIterator opens a new Iterator over the entries in the Reader.
 func (r Reader[K, E]) OpenIterator(opts IterOptions) (iter *Iterator[E], err error) {
-	prefixedKey := append(r.keyCodec.prefix, opts.prefix...)
+	// The entry-type prefix is shared by every reader of the table: build the scan
+	// prefix in a slice of its own, or appending would write opts.prefix into the
+	// spare capacity of the shared slice and concurrent scans would see each other's
+	// prefixes.
+	prefixedKey := slices.Concat(r.keyCodec.prefix, opts.prefix)
 	base, err := r.tx.OpenIterator(kv.IterPrefix(prefixedKey))
 	return &Iterator[E]{Iterator: base, codec: r.tx}, err
 }
